@@ -17,6 +17,7 @@ import (
 	"verif/harness/internal/ev"
 	"verif/harness/internal/gen"
 	"verif/harness/internal/mptkit"
+	"verif/harness/internal/refmpt"
 	"verif/harness/internal/rounds"
 )
 
@@ -312,5 +313,67 @@ func TestLargeRoundCrash(t *testing.T) {
 			prevRoot = root
 		}
 		ev.Sample(map[string]any{"large_history_keys": n, "rounds": 2})
+	})
+}
+
+// Rounds whose number of changed nodes is an exact multiple of the persistent store's batch size (256, 512): the
+// keys are chosen with the reference trie builder until the node count of the round's content hits the target.
+func TestRoundsOfExactlyBatchSizeMultiples(t *testing.T) {
+	ev.Guard(t, "TestRoundsOfExactlyBatchSizeMultiples", func() {
+		x := ev.SeedFor("TestRoundsOfExactlyBatchSizeMultiples")
+		next := func() uint64 { x ^= x << 13; x ^= x >> 7; x ^= x << 17; return x }
+		for _, target := range []int{256, 512, 255, 257} {
+			content := map[string][]byte{}
+			var ops []mptkit.Op
+			nodes := 0
+			for tries := 0; nodes != target && tries < 200000; tries++ {
+				r := next()
+				p := fmt.Sprintf("%06x", r&0xffffff)
+				if _, dup := content[p]; dup {
+					continue
+				}
+				v := []byte{byte(r >> 24), byte(r >> 32), 0x3a}
+				content[p] = v
+				if n := len(refmpt.Build(content, 1).Nodes); n <= target {
+					nodes = n
+					ops = append(ops, mptkit.Op{Kind: "ins", Path: p, Val: fmt.Sprintf("%x", v)})
+				} else {
+					delete(content, p)
+				}
+			}
+			if nodes != target {
+				t.Fatalf("HARNESS: could not build a content of exactly %d nodes (got %d)", target, nodes)
+			}
+			dir := rounds.NewDir()
+			saved := -1
+			rounds.OnBeforeSave = func(n int) { saved = n }
+			root, _, err := rounds.ExecRound(dir, nil, rounds.Round{Version: 1, Txns: []rounds.Txn{{Ops: ops, Merge: true}}})
+			rounds.OnBeforeSave = nil
+			if err != nil {
+				t.Fatalf("round of %d changed nodes: %v", target, err)
+			}
+			if err := rounds.CheckReadable(dir, rounds.Saved{Version: 1, Root: root, Model: content}); err != nil {
+				t.Fatalf("a round that saves exactly %d changed nodes (%d keys; the trie reported %d changes) is not complete in the store: %v", target, len(content), saved, err)
+			}
+			// a second, small round on top must leave both readable
+			ops2 := []mptkit.Op{{Kind: "ins", Path: "0a0b0c", Val: "01"}}
+			content2 := mptkit.CopyContent(content)
+			content2["0a0b0c"] = []byte{1}
+			root2, _, err := rounds.ExecRound(dir, root, rounds.Round{Version: 2, Txns: []rounds.Txn{{Ops: ops2, Merge: true}}})
+			if err != nil {
+				t.Fatalf("round after the %d-node round: %v", target, err)
+			}
+			for _, sv := range []rounds.Saved{{Version: 1, Root: root, Model: content}, {Version: 2, Root: root2, Model: content2}} {
+				if err := rounds.CheckReadable(dir, sv); err != nil {
+					t.Fatalf("after the round following the %d-node round: %v", target, err)
+				}
+			}
+			mptkit.DropDir(dir)
+			cl := "round-of-exactly-k*256-changed-nodes"
+			if saved != target {
+				cl = fmt.Sprintf("round-built-for-%d-nodes-saved-%d", target, saved)
+			}
+			ev.Case(fmt.Sprintf("exact/%d", target), target%256 == 0 && saved == target, cl)
+		}
 	})
 }
